@@ -71,4 +71,16 @@ def orderAcyclic (l : List Acquisition) : Bool :=
   let es := closeStep (closeStep (closeStep (closeStep (closeStep (closeStep (orderEdges l))))))
   es.all fun (p : String × String) => p.1 != p.2
 
+/-- the relation is transitively closed -/
+def transClosed (es : List (String × String)) : Bool :=
+  es.all fun (p : String × String) => es.all fun (q : String × String) => !(q.1 == p.2) || es.contains (p.1, q.2)
+
+def closure6 (l : List Acquisition) : List (String × String) :=
+  closeStep (closeStep (closeStep (closeStep (closeStep (closeStep (orderEdges l))))))
+
+/-- certificate form of `orderAcyclic`: the computed relation contains every "held while acquiring"
+    edge, is transitively closed and irreflexive (this is what `no_wait_cycle` needs) -/
+def orderCertified (l : List Acquisition) : Bool :=
+  transClosed (closure6 l) && (closure6 l).all fun (p : String × String) => p.1 != p.2
+
 end GcpVerif.Sync
